@@ -95,8 +95,9 @@ def some(v):
 
 def none_of(ty):
     """None as a value of Opt[ty]."""
-    dummy = fresh(ty, "nil")
-    return Val(T.Opt(ty), (z3.BoolVal(True),) + dummy.parts)
+    # canonical payload: None must be one value, whatever expression produced it
+    dummy = [z3.Const(f"nil_{i}_{s.sexpr()}".replace(" ", "_").replace("(", "").replace(")", ""), s) for i, s in enumerate(ty.sorts())]
+    return Val(T.Opt(ty), (z3.BoolVal(True),) + tuple(dummy))
 
 
 def opt_isnone(v):
